@@ -406,6 +406,46 @@ def t5b(F, rep):
 _EXACT_READ = re.compile(r"^(read_exact|read_u8|read_u16|read_u24|read_u32|read_u64|by_ref)$")
 
 
+def t13(F, rep):
+    """The header reader records the code-length symbol it read and nothing else: every TreeCodeType value built in
+    HuffmanOriginalEncoding::read sits on the edge of the symbol test that names it (16 -> Repeat, 17 -> ZeroShort, 18 ->
+    ZeroLong, <= 15 -> Code).  A second place that builds one — "a 16 after a zero is really a zero run" — makes the writer
+    emit a different symbol than the one that was read: same lengths, different bits."""
+    h = F.body(P + "huffman_encoding::HuffmanOriginalEncoding::read")
+    where = "%s:%s" % (h.file, h.line)
+    t = F.adts.get(P + "huffman_encoding::TreeCodeType")
+    names = {v["discr"]: v["name"] for v in t["variants"]} if t else {}
+    edges = {}           # discriminant -> (switch block, target) of the symbol test
+    for sb in sorted(h.normal_blocks()):
+        st = h.term(sb)
+        if st["k"] != "switch":
+            continue
+        d = flow.describe(h, st["d"], names=True) or ""
+        if d == "var(w_next)":
+            for v, tgt in st["targets"]:
+                if v in (16, 17, 18):
+                    edges.setdefault(v, []).append((sb, tgt))
+        m = re.match(r"^(Le|Lt|Gt|Ge)\(var\(w_next\), K(\d+)\)$", d)
+        if m and len(st["targets"]) == 1 and st["targets"][0][0] == 0:
+            op, k = m.group(1), int(m.group(2))
+            if (op, k) in (("Le", 15), ("Lt", 16)):
+                edges.setdefault("Code", []).append((sb, st["otherwise"]))
+            elif (op, k) in (("Gt", 15), ("Ge", 16)):
+                edges.setdefault("Code", []).append((sb, st["targets"][0][1]))
+    n = 0
+    for bb in sorted(h.normal_blocks()):
+        for s_ in h.stmts(bb):
+            if s_["k"] == "assign" and s_["r"]["k"] == "agg" and s_["r"].get("adt", "").endswith("TreeCodeType"):
+                n += 1
+                dv = s_["r"]["discr"]
+                nm = names.get(dv, str(dv))
+                key = dv if dv in (16, 17, 18) else "Code"
+                ok = any(tgt == bb or h.edge_dominates(sb, tgt, bb) for sb, tgt in edges.get(key, []))
+                rep.add("T13", "tree-code-built-only-under-its-symbol:%s#%d" % (nm, sum(1 for o in rep.obs if o.rule == "T13" and (":%s#" % nm) in o.instance)), ok, h.where(bb),
+                        "TreeCodeType::%s built %s" % (nm, "on the edge of the symbol test that names it" if ok else "outside the symbol test: the recorded item no longer says which symbol was read"))
+    rep.floor("T13", "tree-code-constructions", n, 4)
+
+
 def t11(F, rep):
     """The deflate reader takes bytes from its source only through all-or-error reads (read_u8 / read_exact behind `?`).
     A counted or to-end read (`read`, `take(n).read_to_end`, `bytes()`) returns Ok on a short source, so a stream cut inside
@@ -507,6 +547,7 @@ def run(ctx, rep):
     t7(F, rep)
     t11(F, rep)
     t12(F, rep)
+    t13(F, rep)
     t8(F, rep)
     t9(F, rep)
     # T10: what is decoded is the caller's byte string from its first byte (no header guessed away in front of it), and the
